@@ -28,6 +28,11 @@ def main():
     sh('git -C /repo worktree remove --force %s' % wt)
     rc, out = sh('git -C /repo worktree add -q %s HEAD' % wt)
     result = {"property": prop, "name": name, "confirmed": False}
+    cj = os.path.join(mdir, 'confirm.json')
+    if os.path.exists(cj) and json.load(open(cj)).get("confirmed"):
+        result = json.load(open(cj))
+        sh('git -C /repo worktree remove --force %s' % wt)
+        return phase2(result, prop, mdir, extra, meta, patch, demo)
     try:
         rc, out = sh('git apply %s' % patch, cwd=wt)
         if rc != 0:
@@ -52,6 +57,13 @@ def main():
     finally:
         sh('git -C /repo worktree remove --force %s' % wt)
         shutil.rmtree(wt, ignore_errors=True)
+    if os.environ.get("CONFIRM_ONLY"):
+        json.dump(result, open(cj, 'w'))
+        return result
+    return phase2(result, prop, mdir, extra, meta, patch, demo)
+
+def phase2(result, prop, mdir, extra, meta, patch, demo):
+    name = os.path.basename(mdir)
     # run the checks against the change
     rc, out = sh('git -C /repo status --porcelain')
     if out.strip():
